@@ -49,8 +49,8 @@ Why(e) ==
          IF pc[e.g] # e.call \/ Outs[e.out].call # e.call THEN "C19.history-malformed"
          ELSE IF e.out = CallsT[e.call].solo THEN ""
          ELSE LET x == OutOf(e.out)  s == OutOf(CallsT[e.call].solo)  en == CallsT[e.call].entry
-              IN IF en \in {"string", "parse"} THEN "C19.differs-from-solo"
-                 ELSE IF x.txt = s.txt /\ SameAsSolo(CaseOfCall(e.call), en, x.e, s.e) THEN ""
+              IN IF en \in {"string", "parse", "realias"} THEN "C19.differs-from-solo"
+                 ELSE IF x.txt = s.txt /\ SameAsSolo(CaseOfCall(e.call), IF en = "query2v" THEN "query" ELSE en, x.e, s.e) THEN ""
                  ELSE "C19.differs-from-solo"
     [] OTHER -> "C19.history-malformed"
 
